@@ -390,6 +390,46 @@ impl C08 {
         s
     }
 
+    /// a soup of defining and compiling words over a handful of names, nested the way sources nest them: the same name
+    /// defined again while its definition is still open, inside and outside meta blocks, closers without openers
+    fn defsoup_items(rng: &mut Rng, depth: usize, out: &mut String) {
+        const NAMES: &[&str] = &["f", "g", "K", "dup", "x"];
+        for _ in 0..1 + rng.below(4) {
+            match rng.below(20) {
+                0..=2 => out.push_str(rng.pick_str(&["1 ", "0 ", "-1 ", "\"s\" ", "[ 1 2 ] ", "nil ", "170141183460469231731687303715884105727 "])),
+                3 | 4 => {
+                    out.push_str(rng.pick_str(NAMES));
+                    out.push(' ');
+                }
+                5 | 6 if depth < 3 => {
+                    out.push_str("#( ");
+                    Self::defsoup_items(rng, depth + 1, out);
+                    out.push_str(rng.pick_str(&["#) ", "#) ", "#) ", "~) ", ""]));
+                }
+                7..=9 if depth < 3 => {
+                    out.push_str(&format!(": {} ", rng.pick_str(NAMES)));
+                    Self::defsoup_items(rng, depth + 1, out);
+                    out.push_str(rng.pick_str(&["; ", "; ", "; ", "; immediate ", ""]));
+                }
+                10..=14 => {
+                    let d = rng.pick_str(&["const", "const", "var", "local", "late", "!", "&", "defined", "see", "let", "enum", "include"]).to_string();
+                    out.push_str(&format!("{} {} ", d, rng.pick_str(NAMES)));
+                }
+                15 if depth < 3 => {
+                    let (a, b) = *rng.pick(&[("[ ", "] "), ("{ ", "} "), ("^{ ", "^} "), ("if ", "then "), ("if ", "else "), ("begin ", "until "), ("do ", "loop "), ("case ", "endcase "), ("of ", "endof "), ("let [ ", "] "), ("foreach ", "loop ")]);
+                    out.push_str(a);
+                    Self::defsoup_items(rng, depth + 1, out);
+                    if rng.chance(5, 6) {
+                        out.push_str(b);
+                    }
+                }
+                16 => out.push_str(rng.pick_str(&["; ", "#) ", "] ", "then ", "loop ", "^} ", "} ", "endenum ", "immediate ", "break ", "else "])),
+                17 => out.push_str(rng.pick_str(&["depth ", "drop ", "+ ", "collect ", "I ", "J ", "exit ", "call ", "doc\" d\" ", "\\( c \\)", "\\ c\n"])),
+                _ => out.push_str(rng.pick_str(&["1 ", "2 "])),
+            }
+        }
+    }
+
     fn fresh_d2(&self) -> Xstate {
         // the canvas object is shared by clones (C03's known finding): every interpreter gets a canvas of its own
         let mut xs = self.boot.clone();
@@ -399,7 +439,14 @@ impl C08 {
 
     fn soup_case(&mut self, idx: u64, obs: &mut Obs, long_lived: bool) {
         let mut rng = Rng::for_case("C08s", self.seed, idx);
-        let src = self.soup(&mut rng);
+        let src = if rng.chance(1, 3) {
+            let mut t = String::new();
+            Self::defsoup_items(&mut rng, 0, &mut t);
+            obs.count("soups:defining-words");
+            t
+        } else {
+            self.soup(&mut rng)
+        };
         let mut xs = if long_lived {
             match self.long_lived.take() {
                 Some(x) if rng.chance(49, 50) => x,
@@ -498,7 +545,14 @@ impl Monitor for C08 {
             0 | 1 => format!("word x argument classes, word {:?}", self.words[(idx / 4) as usize % self.words.len()].0),
             _ => {
                 let mut rng = Rng::for_case("C08s", self.seed, idx);
-                format!("token soup {:?}", self.soup(&mut rng))
+                let src = if rng.chance(1, 3) {
+                    let mut t = String::new();
+                    Self::defsoup_items(&mut rng, 0, &mut t);
+                    t
+                } else {
+                    self.soup(&mut rng)
+                };
+                format!("token soup {:?}", src)
             }
         }
     }
